@@ -73,6 +73,20 @@ func VerifH_race() {
 		ctx2 := &verifCtx{done: make(chan struct{})}
 		b = func() { w.other.Pick(balancer.PickInfo{FullMethodName: "/plain", Ctx: ctx2}) }
 		verifAssume(len(w.other.scRefs) > 0)
+	case 10: // two round-robin BIND picks at once (they draw tickets holding gb.mu in read mode at most)
+		verifAssume(verifFlag("rr"))
+		n := len(w.gb.scRefList)
+		verifAssume(n >= 1)
+		for j := 0; j < vR; j++ {
+			if j < n {
+				verifAssume(w.ready(w.gb.scRefList[j])) // no waiting
+			}
+		}
+		verifAssume(len(w.other.scRefs) > 0)
+		ctx := &verifCtx{hasGcp: true, gcp: &gcpContext{}, done: make(chan struct{})}
+		a = func() { w.pk.Pick(balancer.PickInfo{FullMethodName: "/bind", Ctx: ctx}) }
+		ctx2 := &verifCtx{hasGcp: true, gcp: &gcpContext{}, done: make(chan struct{})}
+		b = func() { w.other.Pick(balancer.PickInfo{FullMethodName: "/bind", Ctx: ctx2}) }
 	case 9: // a round-robin BIND pick that has to wait for its channel (its context ends) and a state report
 		verifAssume(verifFlag("rr"))
 		n := len(w.gb.scRefList)
